@@ -969,6 +969,13 @@ class BeautifulSoup(Tag):
             # The BeautifulSoup object itself can never be popped.
             return None
 
+        if self.open_tag_counter.get(name) and not any(
+            name == t.name and nsprefix == t.prefix for t in reversed(self.tagStack)
+        ):
+            # A tag with this name is open, but only under a different
+            # namespace prefix: this end tag closes nothing.
+            return None
+
         most_recently_popped = None
 
         stack_size = len(self.tagStack)
